@@ -28,7 +28,7 @@ CHECKS = {
   category="exploration",
   text="Eleven binding slots around one build statement (file-level before/after, redefinition, rule-level, build-block, path piece, child-file binding) are each left absent or filled with one of seven expressions that reference x, y, $in, $out in every direction; every assignment with a bounded number of filled slots is loaded with the statement in the main file, in an included file and in a subninja file, followed by a probe statement in the parent, and the evaluated command/description/paths are compared with an independent evaluator that implements the stated lookup chain literally. Exhaustive within the bound.",
   design_ref="DESIGN.md §4 C11",
-  note="Trusted: eval_file/eval_path/eval_rule in refmanifest.rs. Bound: <=4 (quick) / <=5 (thorough) filled slots. One known finding (include does not extend the includer's scope) is listed in known_findings.txt.",
+  note="Trusted: eval_file/eval_path/eval_rule in refmanifest.rs. Bound: <=4 (quick) / <=5 (thorough) filled slots.",
   technique="bounded exhaustive input enumeration against a reference evaluator",
  ),
  "C12": dict(
@@ -58,7 +58,7 @@ CHECKS = {
  "C20": dict(
   engine="inputs/render",
   category="exploration",
-  text="The render helpers of the fancy progress display are called for every terminal width 10..300, 15 elapsed times across every digit count, messages that place a 1/2/3/4-byte character at every offset around the cut index, every short string over {a,é,€,😀}, every alignment for truncate, every count vector up to a bound for progress_bar, and whole frames through the real print_progress at forced widths; the result must not panic, must stay within the width at a character boundary and the bar must have its nominal width. Exhaustive within the bounds, which cover every residue of the byte arithmetic involved.",
+  text="The render helpers of the fancy progress display are called for every terminal width 10..300, 15 elapsed times across every digit count, messages that place a 1/2/3/4-byte character at every offset around the cut index, every short string over {a,é,€,😀}, every alignment for truncate, every count vector up to a bound for progress_bar, and whole frames through the real print_progress at forced widths; and the shipped binary under a real pty (util-linux script) at 7 widths x 4 character sizes x 4 shifts, which must complete the build normally; the result must not panic, must stay within the width at a character boundary and the bar must have its nominal width. Exhaustive within the bounds, which cover every residue of the byte arithmetic involved.",
   design_ref="DESIGN.md §4 C20",
   note="Not covered: the Mutex/Condvar/timeout protocol of the display thread (not modelled by loom); the consequence of a render panic for the build is argued from the code (the helpers are the only fallible code on that thread).",
   technique="bounded exhaustive input enumeration with invariant oracle",
